@@ -13,8 +13,26 @@ Local Open Scope N_scope.
 (* push_newline(True) at level 0: newline + baseIndent, then indent * 0 *)
 Definition nl_text (cfg : sconfig) : str := c_newline cfg ++ c_base_indent cfg.
 
+(* re_line_break.split(value) of the repaired push_string: boundaries are "\r\n", "\r", "\n" only (not
+   str.splitlines(), which also breaks at \f, \v, U+001C-1E, U+0085, U+2028/9); a trailing line break does not
+   start another line.  Same function as OutStream.split_crlf of the markup model. *)
+Fixpoint css_split_crlf_aux (s : str) (cur : str) : list str :=
+  match s with
+  | [] => match cur with [] => [] | _ => [rev cur] end
+  | c :: s' =>
+      if (c =? c_cr) || (c =? c_nl) then
+        match s' with
+        | c2 :: s'' => if (c =? c_cr) && (c2 =? c_nl)
+                       then rev cur :: css_split_crlf_aux s'' []
+                       else rev cur :: css_split_crlf_aux s' []
+        | [] => [rev cur]
+        end
+      else css_split_crlf_aux s' (c :: cur)
+  end.
+Definition css_split_crlf (s : str) : list str := css_split_crlf_aux s [].
+
 (* push_string(value): line by line *)
-Definition push_string (cfg : sconfig) (value : str) : str := join (nl_text cfg) (splitlines value).
+Definition push_string (cfg : sconfig) (value : str) : str := join (nl_text cfg) (css_split_crlf value).
 
 (* push_field(index, placeholder) -> output.field(index, placeholder, ...) *)
 Definition push_field (cfg : sconfig) (index : option N) (placeholder : str) : str :=
